@@ -332,12 +332,25 @@ class Inliner(object):
                 rename[name] = ast.Name(id='%s_inl%d' % (name, self.counter), ctx=ast.Load())
         return prelude, rename
 
-    def expansion(self, callee, call, caller_locals, k):
+    def expansion(self, callee, call, caller_locals, k, caller_fi=None):
         prelude, rename = self.bind(callee, call, caller_locals)
         body = [clone(s) for s in _body_without_docstring(callee.node)]
         if self.spread is not None:
             body = [_SpreadReplacer(*self.spread).visit(s) for s in body]
         body = [_Renamer(rename).visit(s) for s in body]
+        if caller_fi is not None and caller_fi.module is callee.module and any(isinstance(n, ast.For) or (isinstance(n, ast.Call) and isinstance(n.func, ast.Name) and n.func.id == 'next')
+                                         for s_ in body for n in ast.walk(s_)):
+            # specialise before inlining: with the arguments written in, a loop / next() of the helper may now run over a
+            # literal table of the CALLER (`rows` -> `Cls.TABLE`); unrolling it first can remove a `return` from inside a loop
+            import types
+            shim_fn = ast.FunctionDef(name='_shim', args=callee.node.args, body=body, decorator_list=[], returns=None, type_comment=None)
+            shim = types.SimpleNamespace(node=shim_fn, module=caller_fi.module, cls=caller_fi.cls, qualname=callee.qualname)
+            try:
+                unroll_table_loops(self.index, shim)
+                reduce_table_next(self.index, shim)
+                body = _fold(shim_fn.body, self.index, shim)
+            except Exception:
+                body = shim_fn.body
         stmts, _ = _tail(body, k)
         out = prelude + stmts
         for s in out:
@@ -482,12 +495,30 @@ def _seq(body, rest):
     return out + [clone(x) for x in rest]
 
 
-def _const_test(test, index, fi):
-    """Truth value of a test that is decided by what the names ARE (None literal, a class, a function), else None."""
+def _is_class_or_func(name, index, fi):
+    local = any(isinstance(n, (ast.Name, ast.arg)) and getattr(n, 'id', getattr(n, 'arg', None)) == name
+                and (isinstance(n, ast.arg) or isinstance(n.ctx, ast.Store)) for n in ast.walk(fi.node))
+    if local:
+        return False
+    try:
+        q = index.resolve_name(fi.module, name)
+    except Exception:
+        return False
+    return isinstance(q, tuple) and bool(q) and q[0] in ('class', 'func', 'function')
+
+
+def _const_test(test, index, fi, env=None):
+    """Truth value of a test that is decided by what the names ARE (None literal, a class, a function; env: locals just
+    bound to None / to a freshly constructed object in the same straight-line block), else None."""
+    env = env or {}
     if isinstance(test, ast.Constant):
         return bool(test.value)
+    if isinstance(test, ast.Name) and test.id not in env and _is_class_or_func(test.id, index, fi):
+        return True
+    if isinstance(test, ast.Name) and test.id in env:
+        return False if env[test.id] == 'none' else None
     if isinstance(test, ast.UnaryOp) and isinstance(test.op, ast.Not):
-        v = _const_test(test.operand, index, fi)
+        v = _const_test(test.operand, index, fi, env)
         return None if v is None else (not v)
     if isinstance(test, ast.Compare) and len(test.ops) == 1 and isinstance(test.ops[0], (ast.Is, ast.IsNot)) \
             and isinstance(test.comparators[0], ast.Constant) and test.comparators[0].value is None:
@@ -495,41 +526,92 @@ def _const_test(test, index, fi):
         is_none = None
         if isinstance(left, ast.Constant):
             is_none = left.value is None
+        elif isinstance(left, ast.Name) and left.id in env:
+            is_none = env[left.id] == 'none'
         elif isinstance(left, ast.Name):
-            local = any(isinstance(n, (ast.Name, ast.arg)) and getattr(n, 'id', getattr(n, 'arg', None)) == left.id
-                        and (isinstance(n, ast.arg) or isinstance(n.ctx, ast.Store)) for n in ast.walk(fi.node))
-            if not local:
-                try:
-                    q = index.resolve_name(fi.module, left.id)
-                except Exception:
-                    q = None
-                if isinstance(q, tuple) and q and q[0] in ('class', 'func', 'function'):
-                    is_none = False
+            if _is_class_or_func(left.id, index, fi):
+                is_none = False
         if is_none is None:
             return None
         return is_none if isinstance(test.ops[0], ast.Is) else (not is_none)
     return None
 
 
-def _fold(stmts, index, fi):
-    """Drop branches whose test is decided by _const_test and statements after an unconditional exit."""
+def _stored_in(node):
+    return {n.id for n in ast.walk(node) if isinstance(n, ast.Name) and isinstance(n.ctx, (ast.Store, ast.Del))}
+
+
+def _fold(stmts, index, fi, env=None):
+    """Drop branches whose test is decided by _const_test and statements after an unconditional exit.  env tracks, within one
+    straight-line block, locals just bound to None ('none') or to a freshly constructed object of a known class ('obj')."""
+    env = dict(env or {})
     out = []
     for s in stmts:
         if isinstance(s, ast.If):
-            v = _const_test(s.test, index, fi)
+            v = _const_test(s.test, index, fi, env)
             if v is True:
-                out.extend(_fold(s.body, index, fi))
+                sub = _fold(s.body, index, fi, env)
+                out.extend(sub)
+                for nm in _stored_in(s):
+                    env.pop(nm, None)
             elif v is False:
-                out.extend(_fold(s.orelse, index, fi))
+                sub = _fold(s.orelse, index, fi, env)
+                out.extend(sub)
+                for nm in _stored_in(s):
+                    env.pop(nm, None)
             else:
-                s.body = _fold(s.body, index, fi) or [ast.copy_location(ast.Pass(), s)]
-                s.orelse = _fold(s.orelse, index, fi)
+                s.body = _fold(s.body, index, fi, env) or [ast.copy_location(ast.Pass(), s)]
+                s.orelse = _fold(s.orelse, index, fi, env)
                 out.append(s)
+                for nm in _stored_in(s):
+                    env.pop(nm, None)
         else:
+            if isinstance(s, (ast.Assign, ast.Return, ast.Raise, ast.Expr)):
+                s = _FoldBool(index, fi).visit(s)
             out.append(s)
+            stored = _stored_in(s)
+            for nm in stored:
+                env.pop(nm, None)
+            if isinstance(s, ast.Assign) and len(s.targets) == 1 and isinstance(s.targets[0], ast.Name):
+                v = s.value
+                if isinstance(v, ast.Constant) and v.value is None:
+                    env[s.targets[0].id] = 'none'
+                elif isinstance(v, ast.Call) and isinstance(v.func, ast.Name) and _is_class_or_func(v.func.id, index, fi) \
+                        and v.func.id[:1].isupper():
+                    env[s.targets[0].id] = 'obj'
         if out and isinstance(out[-1], (ast.Return, ast.Raise, ast.Break, ast.Continue)):
             break
     return out
+
+
+class _FoldBool(ast.NodeTransformer):
+    """`Cls and X` -> X, `None and X` -> None, `None or X` -> X (operands decided by what the names are)."""
+    def __init__(self, index, fi):
+        self.index, self.fi = index, fi
+
+    def visit_BoolOp(self, node):
+        self.generic_visit(node)
+        vals = list(node.values)
+        while len(vals) > 1:
+            v = _const_test(vals[0], self.index, self.fi)
+            if v is None:
+                break
+            if isinstance(node.op, ast.And):
+                if v:
+                    vals.pop(0)
+                else:
+                    return vals[0]
+            else:
+                if v:
+                    return vals[0]
+                vals.pop(0)
+        if len(vals) == 1:
+            return vals[0]
+        node.values = vals
+        return node
+
+    def visit_Lambda(self, node):
+        return node
 
 
 def unroll_table_loops(index, fi, only_temps=False):
@@ -760,7 +842,7 @@ def reduce_table_next(index, fi):
 _BUILTIN_NON_EXCEPTION = {'KeyboardInterrupt', 'SystemExit', 'GeneratorExit', 'BaseException'}
 
 
-def split_dispatch_handlers(fn):
+def split_dispatch_handlers(fn, index=None, fi=None):
     """`except Exception as e:` whose body is a chain of `isinstance(e, C)` tests is rewritten as one handler per class
     (same order) followed by the catch-all with the chain's default -- the form the rules read.  Returns the count."""
     count = 0
@@ -773,6 +855,8 @@ def split_dispatch_handlers(fn):
                 continue
             count += 1
             for cls_expr, body in rows:
+                if index is not None and fi is not None:
+                    body = _fold([clone(x) for x in body], index, fi)
                 uses = any(isinstance(n, ast.Name) and n.id == h.name for s in body for n in ast.walk(s))
                 nh = ast.ExceptHandler(type=cls_expr if cls_expr is not None else h.type, name=h.name if uses else None,
                                        body=body or [ast.Pass()])
@@ -884,6 +968,12 @@ def _is_call_to(index, caller_fi, node, targets_q):
     funcs = [t for t in targets if not isinstance(t, tuple)]
     if len(funcs) == 1 and funcs[0].qualname in targets_q and how in ('exact', 'cha', 'unique-name'):
         f0 = funcs[0]
+        if how == 'unique-name' and isinstance(node.func, ast.Attribute):
+            # a guess by name on a receiver of unknown type: never for names that builtin containers / strings / numbers also
+            # have (`x.add(...)`, `x.update(...)`, `x.get(...)` on a set or dict is not the package's method of that name)
+            nm = node.func.attr
+            if any(hasattr(t, nm) for t in (set, frozenset, list, dict, tuple, str, bytes, int, float, complex, object)):
+                return None
         if f0.outer is not None and isinstance(node.func, ast.Name):
             # a nested def whose name has another binding in the enclosing scope (`pred = is_square` in one branch, `def pred` in
             # the other): the call does not always reach this definition, so it must not be inlined
@@ -949,7 +1039,7 @@ def normalize(index, known=None, rounds=3):
                     n_un = unroll_table_loops(index, fi, only_temps=True)
                     if n_un:
                         report.setdefault('unrolled', {})[fi.qualname] = report.get('unrolled', {}).get(fi.qualname, 0) + n_un
-                    n_sp = split_dispatch_handlers(fi.node)
+                    n_sp = split_dispatch_handlers(fi.node, index, fi)
                     if n_sp:
                         report.setdefault('split_handlers', {})[fi.qualname] = n_sp
         if not changed:
@@ -1016,7 +1106,7 @@ def _inline_in_function(index, inl, fi, cq, remaining_calls, report):
                 else:
                     def k(e, src, fell_off=False):
                         return [ast.AugAssign(target=clone(s.target), op=s.op, value=e)]
-                out = inl.expansion(callee, call, caller_locals, k)
+                out = inl.expansion(callee, call, caller_locals, k, fi)
                 report['inlined'][callee.qualname] = report['inlined'].get(callee.qualname, 0) + 1
                 changed[0] = True
                 return out or [ast.copy_location(ast.Pass(), s)]
@@ -1051,7 +1141,7 @@ def _inline_in_function(index, inl, fi, cq, remaining_calls, report):
                     def k(e, src, fell_off=False, tmp=tmp):
                         return [ast.Assign(targets=[ast.Name(id=tmp, ctx=ast.Store())], value=e)]
                     k.try_safe = True
-                    pre = inl.expansion(c, n, caller_locals, k)
+                    pre = inl.expansion(c, n, caller_locals, k, fi)
                     _replace_node(s, n, ast.Name(id=tmp, ctx=ast.Load()))
                     report['inlined'][c.qualname] = report['inlined'].get(c.qualname, 0) + 1
                     changed[0] = True
